@@ -157,6 +157,9 @@ def _make_exc(interp, exc_cls, spec, env):
     mk = spec.get('make')
     if mk is not None:
         return _call_pred(interp, mk, env)
+    if isinstance(spec.get('shape'), Ty):
+        # the shape (attributes) of the exception object as call sites see it
+        return spec['shape'].make(interp, 'exc.%s' % _exc_name(exc_cls))
     if isinstance(exc_cls, Ty):
         return exc_cls.make(interp, 'exc')
     try:
